@@ -226,17 +226,36 @@ def main():
     ap.add_argument("--jobs", type=int, default=8)
     ap.add_argument("--seed", type=int, default=0)
     ap.add_argument("--list", action="store_true")
+    ap.add_argument("--all-lines", action="store_true", help="also mutate lines the check's cases never execute (default: only lines "
+                    "covered according to evidence/<PID>.json coverage.impl_line_coverage)")
     ap.add_argument("ids", nargs="+")
     a = ap.parse_args()
     OUT.mkdir(parents=True, exist_ok=True)
     for pid in a.ids:
         rng = random.Random(f"{pid}:{a.seed}")
         ms = []
+        cov = {}
+        if not a.all_lines:
+            try:
+                cov = json.loads((VERIF / "evidence" / f"{pid}.json").read_text())["coverage"]["impl_line_coverage"]
+            except Exception:
+                cov = {}
+        n_uncovered = 0
         for rel in anchored_files(pid):
             p = Path("/repo") / rel
             if p.exists():
+                c = cov.get(rel) if isinstance(cov.get(rel), dict) else None
+                not_entered = set(c.get("functions_not_entered", [])) if c else set()
+                unc = set()
+                for ls in (c.get("functions_partially_covered", {}) if c else {}).values():
+                    unc.update(ls)
                 for (q, line, kind, before, after, new_text) in mutants_of(p.read_text()):
+                    if c is not None and (q in not_entered or line in unc or any(q.startswith(f + ".") for f in not_entered)):
+                        n_uncovered += 1
+                        continue
                     ms.append((rel, q, line, kind, before, after, new_text))
+        if n_uncovered:
+            print(f"{pid}: {n_uncovered} mutants on lines the check never executes are left out (coverage gaps are listed in the evidence)", flush=True)
         # spread over functions: round-robin over (file, function) groups in random order
         groups = {}
         for m in ms:
